@@ -126,7 +126,11 @@ theorem leaf_env (l : Leaf) (v : Val) (b : Bytes) (env : Env) (se : SEnv) (id : 
       apply EnvB_cons _ _ _ _ _ hB
       omega
     · cases h
-  | prim n => cases v <;> simp [encLeaf] at h
+  | prim n =>
+    have h' : encPrim n v = some b := by cases v <;> simpa [encLeaf] using h
+    obtain ⟨vs, hv⟩ := encPrim_list n v b h'
+    subst hv
+    simpa [leafMax, Env.bind] using hB
 
 /-! ## frame: encoding a member binds only the member's own ids -/
 
